@@ -167,6 +167,11 @@ def catalogue(al):
     if hasattr(li, "batched"):
         add("batched", "batched", lambda al, s, c: li.batched(s, c["a"]))
     add("resample", "resample", lambda al, s, c: al.resample(s, old=c["a"], new=c["b"], order=c["c"]))
+    # time-varying step: old and/or new given as (constant) Streams take the other branch of the generator
+    add("resample", "resample(old=Stream)", lambda al, s, c: al.resample(s, old=S(float(c["a"])), new=c["b"],
+                                                                          order=c["c"]))
+    add("resample", "resample(new=Stream)", lambda al, s, c: al.resample(s, old=c["a"], new=S(float(c["b"])),
+                                                                          order=c["c"]))
     return cat
 
 
